@@ -25,6 +25,8 @@ pub enum Ev {
     Published,
     /// what the publication just counted was about: (file id, version attached to it)
     PublishedFor(u32, i32),
+    /// and how many diagnostics it carried: (file id, number of diagnostics)
+    PublishedCount(u32, usize),
     /// the calling thread is about to release an analysis snapshot
     SnapshotDropped,
 }
